@@ -94,7 +94,7 @@ fn main() {
     if res.is_err() {
         let (loc, msg) = take_panic().unwrap_or(("?".into(), "?".into()));
         let case = ctx::CURRENT_CASE.load(Ordering::SeqCst);
-        if loc.contains("/verif/harness/") {
+        if loc.contains("/verif/harness/") || loc.starts_with("src/") {
             ctx.harness_error(format!("harness panic at {loc}: {msg} (case {case})"));
         } else {
             let sig = format!("panic:{}", short_loc(&loc));
